@@ -318,15 +318,46 @@ def check_c09(exe, tier, seed, verdict):
             dflt = {"Float": "3fc00000", "Double": "3ff8000000000000", "String": hx("d")}.get(T, "1")
             s.append("getdef %s 1 %s %s %s" % (T, hx(g), hx(k), dflt))
     s.append("free 1")
+    # ... and keys that have no value in the EFFECTIVE configuration although a shadowed layer gives them a number / a boolean word:
+    # a bare key (or 'k=') of the overriding side of econf_mergeFiles, of a drop-in, of the /etc file over the vendor file; a value
+    # removed again by a setter with an empty text
+    NV = ROOT + "/nv2"
+    base = "N=5\nH=0x10\nB=yes\nE=7\n[S]\nM=7\nO=017\n"
+    over = "N\n\nH\n#c\nB\nE=\n[S]\nM\n\nO\n"
+    nvkeys = ((None, "N"), (None, "H"), (None, "B"), (None, "E"), ("S", "M"), ("S", "O"))
+    s += ["file %s %s" % (hx(NV + "/base.conf"), hx(base)), "file %s %s" % (hx(NV + "/over.conf"), hx(over)),
+          "file %s %s" % (hx(NV + "/a/usr/etc/cfg.conf"), hx(base)), "file %s %s" % (hx(NV + "/a/etc/cfg.conf.d/o.conf"), hx(over)),
+          "file %s %s" % (hx(NV + "/b/usr/etc/cfg.conf"), hx(base)), "file %s %s" % (hx(NV + "/b/etc/cfg.conf"), hx(over)),
+          "file %s %s" % (hx(NV + "/c/usr/etc/cfg.conf"), hx(base)), "file %s %s" % (hx(NV + "/c/usr/etc/cfg.conf.d/o.conf"), hx(over)),
+          "readfile 2 %s x3d x23" % hx(NV + "/base.conf"), "readfile 3 %s x3d x23" % hx(NV + "/over.conf"), "merge 4 2 3"]
+    for j, d in enumerate("ac"):
+        s.append("readdirs %d %s %s %s %s x3d x23" % (5 + j, hx(NV + "/%s/usr/etc" % d), hx(NV + "/%s/etc" % d), hx("cfg"), hx("conf")))
+    s += ["readfile 7 %s x3d x23" % hx(NV + "/base.conf")] + ["set String 7 %s %s %s" % (hx(g), hx(k), hx("")) for g, k in nvkeys]
+    for h in (4, 5, 6, 7):
+        for T in ITYPES + ["Float", "Double", "Bool"]:
+            for g, k in nvkeys:
+                s.append("get %s %d %s %s" % (T, h, hx(g), hx(k)))
+                dflt = {"Float": "3fc00000", "Double": "3ff8000000000000"}.get(T, "1")
+                s.append("getdef %s %d %s %s %s" % (T, h, hx(g), hx(k), dflt))
+    # (the /etc FILE replaces the vendor file as a whole, its bare keys are bare keys of a single file)
+    s.append("readdirs 8 %s %s %s %s x3d x23" % (hx(NV + "/b/usr/etc"), hx(NV + "/b/etc"), hx("cfg"), hx("conf")))
+    for T in ITYPES + ["Float", "Double", "Bool"]:
+        for g, k in nvkeys:
+            s.append("get %s 8 %s %s" % (T, hx(g), hx(k)))
+    s += ["free %d" % h for h in range(2, 9)]
     out = core.run_cases(exe, [("nv", s)], jobs=1)["nv"]
     if out["crash"]:
         nev = len(out["ev"])
         verdict.violation("C09:novalue:crash", {"kind": "script", "script": s, "crash": out["crash"]},
                           "typed getter on a key without value crashed (call #%d: %s)\n%s" % (nev, s[nev + 1] if nev + 1 < len(s) else "?", out["crash"][:700]))
     else:
+        setup = [e for e in out["ev"] if e["op"] in ("readfile", "readdirs", "merge", "set")]
+        if any(e["rc"] != "ECONF_SUCCESS" for e in setup):
+            verdict.violation("C09:novalue:setup", {"kind": "script", "script": s, "failed": [e for e in setup if e["rc"] != "ECONF_SUCCESS"][:3]},
+                              "the layered / merged configurations of the no-value scenarios could not be built: %s" % [e for e in setup if e["rc"] != "ECONF_SUCCESS"][:2])
         for e in out["ev"]:
             if e["op"] in ("get", "getdef"):
-                events.append({"e": "novalue", "T": e["T"], "rc": e["rc"]})
+                events.append({"e": "novalue", "T": e["T"], "rc": e["rc"], "text": "handle %s key %s" % (e.get("h"), e.get("k"))})
     # booleans: random texts + exhaustive sweep
     btexts = ["", "1", "0", "yes", "Yes", "NO", "true", "FALSE", "tRuE", "on", "off", "2", "yess", " yes", "yes ", "p-", "g@lse", "no!", "01", "truefalse", "y", "n", "t", "f", "nope", "_none_"]
     for _ in range(200 if tier == "quick" else 5000):
